@@ -331,8 +331,8 @@ def brute_force(real, call, limit=40000):
 def gene_pool(r, quick):
     import gen_gene
     pool = [{"kind": "toy", "genome": "hg19"}, {"kind": "toy", "genome": "hg38"}]
-    for _ in range(20 if quick else 150):
-        pool.append({"kind": "generated", "genome": r.choice(["hg19", "hg38"]), "yaml": gen_gene.gen_gene(r)})
+    for i_ in range(20 if quick else 150):
+        pool.append({"kind": "generated", "genome": r.choice(["hg19", "hg38"]), "yaml": gen_gene.with_delins(r, gen_gene.gen_gene(r)) if i_ % 2 else gen_gene.gen_gene(r)})
     for nme in (["cyp2c19", "tpmt"] if quick else ["cyp2c19", "tpmt", "cyp2c9", "nat1", "cyp3a5", "nudt15", "cyp2d6"]):
         pool.append({"kind": "shipped", "name": nme, "genome": r.choice(["hg19", "hg38"])})
     return pool
